@@ -181,7 +181,7 @@ type c02LongLineCase struct {
 
 func TestVerif_C02_h1longline(t *testing.T) {
 	s := verifh.New(t, "C02", "h1longline",
-		"real client <-> raw TCP peer: ONE line of the response head (status line's reason phrase | a field line | a field line of an interim 103 | the line before the blank line) has length m*B+d without CRLF, B = read buffer size in {default 4096, 512, 1024, 8192 via SetReadBufferSize}, m 1..3, d -3..2; dump option matrix {off, EnableDumpAllTo, EnableDumpAllWithoutResponseBody, EnableDumpAllWithoutHeader (no header dump), request-level EnableDumpTo, EnableDumpWithoutResponse}; framing {Content-Length, chunked+trailers, close}; written whole or in a generated segmentation; view = status, X- fields, trailers, body vs the origin's spec (oracle) and vs Req.C02.h1ReceiveView on the written segmentation; non-trivial = the long line exceeds the buffer")
+		"real client <-> raw TCP peer: ONE line of the response head (status line's reason phrase | a field line | a field line of an interim 103 | the line before the blank line) has length m*B+d without CRLF, B = read buffer size in {default 4096, 512, 1024, 8192 via SetReadBufferSize}, m 1..3, d -3..2; dump option matrix {off, EnableDumpAllTo, EnableDumpAllWithoutResponseBody, EnableDumpAllWithoutHeader (no header dump), request-level EnableDumpTo, EnableDumpWithoutResponse}; framing {Content-Length, chunked+trailers, close}; Pragma / Cache-Control fields {none, Pragma: no-cache, other first value, with Cache-Control} (over HTTP/1.1 fixPragmaCacheControl adds Cache-Control: no-cache); written whole or in a generated segmentation; view = status, X- fields, trailers, body vs the origin's spec (oracle) and vs Req.C02.h1ReceiveView on the written segmentation; non-trivial = the long line exceeds the buffer")
 	r := s.Rand()
 	bk := &c02Buckets{s, map[string]int{}}
 	peer := c02NewH1Peer(t)
@@ -253,6 +253,20 @@ func TestVerif_C02_h1longline(t *testing.T) {
 			addField(mk("X-Long: "))
 		}
 		addField("X-B: " + verifh.RandBytes(r, r.Intn(20), "abcdef0123"))
+		// Pragma / Cache-Control (theorem h1_head_roundtrip_pragma): over HTTP/1.1 a first
+		// Pragma value "no-cache" without any Cache-Control field adds Cache-Control: no-cache
+		switch r.Intn(5) {
+		case 0:
+			addField("Pragma: no-cache")
+		case 1:
+			addField("Pragma: x-other")
+			if r.Intn(2) == 0 {
+				addField("Pragma: no-cache")
+			}
+		case 2:
+			addField("Cache-Control: max-age=60")
+			addField("Pragma: no-cache")
+		}
 		lc.body = verifh.RandBytes(r, verifh.Pick(r, []int{0, 1, 100, 4095, 4096, 4097, 9000}), "")
 		framing := verifh.Pick(r, []string{"len", "chunked", "close"})
 		closeAfter := false
@@ -324,6 +338,14 @@ func TestVerif_C02_h1longline(t *testing.T) {
 		for _, f := range lc.trailers {
 			tr.Add(f.k, f.v)
 		}
+		if pv := h["Pragma"]; len(pv) > 0 {
+			if _, hasCC := h["Cache-Control"]; pv[0] == "no-cache" && !hasCC {
+				h["Cache-Control"] = []string{"no-cache"}
+				bk.count("pragma-adds-cache-control")
+			} else {
+				bk.count("pragma-without-effect")
+			}
+		}
 		want := c02ViewString(lc.status, h, tr, []byte(lc.body), "ok")
 		ok := view == want && extraOK
 		if !ok {
@@ -356,6 +378,6 @@ func TestVerif_C02_h1longline(t *testing.T) {
 	}
 	s.Finish()
 	if fails < 8 {
-		bk.require(t, "h1longline", "cr-edge-x-header-dump", "cr-edge-no-header-dump", "where:status", "where:field", "where:interim", "where:lastfield")
+		bk.require(t, "h1longline", "cr-edge-x-header-dump", "cr-edge-no-header-dump", "where:status", "where:field", "where:interim", "where:lastfield", "pragma-adds-cache-control", "pragma-without-effect")
 	}
 }
